@@ -28,11 +28,14 @@
 struct NipalsTol {
   std::vector<double> sin_angle;   // allowed sin(angle) between loading k and eigenvector k
   std::vector<double> eval_rel;    // allowed relative error of eigenvalue k
+  std::vector<double> score_rel;   // allowed relative error (in the 2-norm) of score vector k = (deflated data) x loading k:
+                                   // the deflated data themselves differ by sigma_j d_j for every earlier component j, so
+                                   // score_rel(k) = sin_angle(k) + sum_{j<k} (sigma_j/sigma_k) sin_angle(j)
   int kmax = 0;                    // components [0,kmax) are decidable
 };
 
 inline NipalsTol nipals_tolerances(const LVec &ev, int npc, int n, double crit, double safety = 10.0) {
-  NipalsTol T; T.sin_angle.assign(npc, 1.0); T.eval_rel.assign(npc, 1.0);
+  NipalsTol T; T.sin_angle.assign(npc, 1.0); T.eval_rel.assign(npc, 1.0); T.score_rel.assign(npc, 1.0);
   long double c = 0;  // accumulated deflation perturbation of the cross-product matrix
   double tilt = 0;    // sum of the angle errors of the earlier components (each later loading is orthogonal to them)
   T.kmax = npc;
@@ -45,6 +48,7 @@ inline NipalsTol nipals_tolerances(const LVec &ev, int npc, int n, double crit, 
     double d = dconv + ddefl;
     T.sin_angle[k] = safety * d + 1e-7;
     T.eval_rel[k] = safety * (2 * sqrt((double)n * crit) + d * d + (double)(c / ev[k])) + 1e-9;
+    T.score_rel[k] = T.sin_angle[k]; for (int j = 0; j < k; j++) T.score_rel[k] += sqrt((double)(ev[j] / ev[k])) * T.sin_angle[j];
     if (T.sin_angle[k] > 0.3) { T.kmax = k; break; }
     long double dj = 2 * d;  // what this component may leave behind (factor 2: rounding and the neglected higher orders)
     c += ev[k] * dj * dj;
